@@ -436,9 +436,9 @@ def units_dispatch(cx):
             s0 = st.targets[0]
             smp = smp or (s0.id if isinstance(s0, ast.Name) else None)
             if k == 'to_rfi':
-                ok = ok and sym.norm(st.value) == sym.norm('FlowCal.transform.to_rfi(%s, %s)' % (smp, ch)) and sym.norm(s0) == ('var', smp)
+                ok = ok and fn.eqv(st.value, 'FlowCal.transform.to_rfi(%s, %s)' % (smp, ch)) is not None and sym.norm(s0) == ('var', smp)
             else:
-                ok = ok and sym.norm(st.value) == sym.norm("mef_transform_fxns[%s['Beads ID']](%s, %s)" % (row, smp, ch)) and sym.norm(s0) == ('var', smp)
+                ok = ok and fn.eqv(st.value, "mef_transform_fxns[%s['Beads ID']](%s, %s)" % (row, smp, ch)) is not None and sym.norm(s0) == ('var', smp)
         if u == 'mef' and len(calls) == 2:
             ok = ok and calls[0][1].lineno < calls[1][1].lineno
         fn.ob('DISPATCH', 'units %r: %s' % (u, {'channel': 'values left as channel numbers', 'rfi': 'converted to RFI', 'a.u.': 'converted to RFI',
@@ -465,19 +465,35 @@ def union_discipline(cx, qual, dict_param):
     fn = Fn(cx, qual)
     n = 0
     uses = []
+    # local aliases of a row result:  x = samples[row]
+    alias = {}
+    for st in fn.stmts(ast.Assign):
+        if isinstance(st.targets[0], ast.Name) and isinstance(st.value, ast.Subscript) and dotted(st.value.value) == dict_param:
+            alias[st.targets[0].id] = st
     for x in fn.walk():
-        if isinstance(x, ast.Subscript) and dotted(x.value) == dict_param and isinstance(x.ctx, ast.Load):
+        is_res = isinstance(x, ast.Subscript) and dotted(x.value) == dict_param and isinstance(x.ctx, ast.Load)
+        is_alias = isinstance(x, ast.Name) and x.id in alias and isinstance(x.ctx, ast.Load)
+        if is_res or is_alias:
             par = fn.parent.get(id(x))
             if isinstance(par, ast.Call) and dotted(par.func) in ('isinstance', 'str') and par.args[0] is x:
                 continue
-            if isinstance(par, ast.Call) and dotted(par.func) == 'str':
-                continue
+            if is_res and isinstance(par, ast.Assign) and par in alias.values():
+                continue          # the aliasing assignment itself uses nothing of the value
             uses.append(x)
     for u in uses:
-        key = sym.norm(u.slice)
+        if isinstance(u, ast.Name):
+            src = alias[u.id].value
+            keys = [sym.norm(src.slice)]
+            tests = [sym.norm('isinstance(%s, %s)' % (u.id, ROWEXC)),
+                     sym.norm('isinstance(%s[K], %s)' % (dict_param, ROWEXC), env={'K': keys[0]})]
+        else:
+            tests = [sym.norm('isinstance(%s[K], %s)' % (dict_param, ROWEXC), env={'K': sym.norm(u.slice)})]
+            for a_, st_ in alias.items():
+                if sym.norm(st_.value.slice) == sym.norm(u.slice):
+                    tests.append(sym.norm('isinstance(%s, %s)' % (a_, ROWEXC)))
         ok = False
         for g in fn.stmts(ast.If):
-            if sym.norm(g.test) == sym.norm('isinstance(%s[K], %s)' % (dict_param, ROWEXC), env={'K': key}):
+            if sym.norm(g.test) in tests:
                 a_t, a_f = fn.cfg.assume[id(g)]
                 if fn.cfg.dominates(a_f, fn.node(u)) and fn.cfg.node_of(g).id != fn.node(u).id:
                     ok = True
@@ -537,8 +553,7 @@ def samples_pipeline(cx):
         ('instrument row looked up by the sample\'s Instrument ID', "IR = instruments_table.loc[%s['Instrument ID']]" % row),
         ('scatter channels = forward and side scatter channel of the instrument',
          "SC = [IR['Forward Scatter Channel'], IR['Side Scatter Channel']]"),
-        ('fluorescence channels = comma separated list of the instrument', "FL = IR['Fluorescence Channels'].split(',')"),
-        ('... trimmed', 'FL = [X.strip() for X in FL]'),
+        ('fluorescence channels = comma separated list of the instrument, trimmed', "FL = [X.strip() for X in IR['Fluorescence Channels'].split(',')]"),
         ('file path relative to the workbook', "FN = os.path.join(base_dir, %s['File Path'])" % row),
         ('stage 1: load', 'S = FlowCal.io.FCSData(FN)'),
         ('stage 2: scatter channels to RFI', 'S = FlowCal.transform.to_rfi(S, SC)'),
@@ -553,7 +568,7 @@ def samples_pipeline(cx):
     ]
     b = inventory(fn, 'PIPE', items, ['IR', 'SC', 'FL', 'X', 'FN', 'S', 'G', 'RC', 'DGO'], root=lp)
     S, G = b.get('S'), b.get('G')
-    if not (S and G):
+    if not (S and G and all(k in b for k in ('FN', 'SC', 'RC', 'DGO'))):
         return fn
     S, G = S[1], G[1]
     # no other definition of the sample variables than the documented stages (+ the dispatch conversions)
@@ -617,13 +632,11 @@ def beads_pipeline(cx):
     items = [
         ('instrument row looked up by the beads\' Instrument ID', "IR = instruments_table.loc[%s['Instrument ID']]" % row),
         ('scatter channels', "SC = [IR['Forward Scatter Channel'], IR['Side Scatter Channel']]"),
-        ('fluorescence channels', "FL = IR['Fluorescence Channels'].split(',')"),
-        ('... trimmed', 'FL = [X.strip() for X in FL]'),
+        ('fluorescence channels: the instrument\'s comma separated list, trimmed', "FL = [X.strip() for X in IR['Fluorescence Channels'].split(',')]"),
         ('file path relative to the workbook', "FN = os.path.join(base_dir, %s['File Path'])" % row),
         ('stage 1: load', 'S = FlowCal.io.FCSData(FN)'),
         ('stage 2: scatter and fluorescence channels to RFI', 'S = FlowCal.transform.to_rfi(S, SC + FL)'),
-        ('clustering channels from the row', "CC = %s['Clustering Channels'].split(',')" % row),
-        ('... trimmed', 'CC = [Y.strip() for Y in CC]'),
+        ('clustering channels: the row\'s comma separated list, trimmed', "CC = [Y.strip() for Y in %s['Clustering Channels'].split(',')]" % row),
         ('stage 3: drop the first 250 and last 100 events', 'G = FlowCal.gate.start_end(S, num_start=250, num_end=100)'),
         ('stage 4: saturation gate only for integer data', "if G.data_type == 'I':"),
         ('stage 4: remove saturated events in the scatter channels', 'G = FlowCal.gate.high_low(G, channels=SC)'),
